@@ -6,7 +6,8 @@ from ..core import HEADER, CASE_TYPE, CHECK, MODEL_VIEW, SHARD, CASE_TIMEOUT, ob
 
 ID = "C09"
 THEOREMS = ["C09_inline", "C09_undefined_macro", "C09_too_few_arguments", "C09_deferred_argument", "C09_code_splice",
-            "C09_code_splice_not_code", "C09_inline_deferred", "C09_deferred_flag", "C09_deferred_assembly"]
+            "C09_code_splice_not_code", "C09_inline_deferred", "C09_deferred_flag", "C09_deferred_assembly",
+            "C09_inline_assembly", "C09_inline_assembly_deferred"]
 RULE = ("generated macro definitions (0-3 parameters, all statement kinds in bodies, local labels, nested calls, code-block "
         "parameters) x argument expressions (literals, constants, backward/forward labels, names equal to parameter names) "
         "x 1-4 applications; each program is compared with the model and with its mechanically inlined twin "
@@ -17,7 +18,9 @@ PROVED_NOTE = ("proved: an application whose arguments evaluate at the call site
                "With any mix of evaluated and deferred arguments the application generates the nodes of the inlined block up to "
                "the lookup scope of the deferred parameters, and the two whole assemblies are equal when no deferred expression "
                "mentions a name bound in the block scope itself (exact capture condition, with examples both ways); a code-block "
-               "parameter splice generates the argument's statements in place. Correspondence-only: applications mixing code-block "
+               "parameter splice generates the argument's statements in place. END TO END (assemble_ast = code generation + all passes): "
+               "a program with an application = the program with the inlined block, unconditionally for eager arguments, under the "
+               "capture condition for deferred ones. Correspondence-only: applications mixing code-block "
                "arguments with the rest, end to end (inlined twins).")
 MANIFEST = {
     "text": ("Coq theorem over the Gallina model of generate_macro_application (all macros/arguments of the eager kind); model "
